@@ -369,6 +369,20 @@ def _max_update_ok(summary, key, old, cand, old_unsigned=False):
     return False, "not written on a path that does not imply %s <= %s" % (show(cand), show(old))
 
 
+def _unwrap_wrapping(e):
+    """`acc.wrapping_add(x)` / `acc.wrapping_sub(x)` on an accumulator of self is `acc + x` / `acc - x` (modulo 2^n, exactly
+    what the plain operators compute when overflow checks are off): the totals are compared as mathematical sums. The
+    request difference `new.wrapping_sub(old)` (no accumulator among the operands) stays as written."""
+    if not isinstance(e, tuple):
+        return e
+    e = tuple(_unwrap_wrapping(x) for x in e)
+    if len(e) == 3 and e[0] == "call" and e[1] in ("core::num::wrapping_add", "core::num::wrapping_sub") and len(e[2]) == 2:
+        a, b_ = e[2]
+        if "('arg', 1" in str(a) or "'cell'" in str(a):
+            return add(a, b_, 1 if e[1].endswith("add") else -1)
+    return e
+
+
 def r10_3(ctx, prog, crate):
     """What the tally functions compute, as flow-sensitive path summaries (lib/patheval.py): final value of every field
     on every path in terms of the initial values - independent of how the update is spelled."""
@@ -396,6 +410,9 @@ def r10_3(ctx, prog, crate):
         sums = PathEval(b, effects={OP: [("tallies",)]}).run()
         if not ctx.check(sums is not None and len(sums) >= 1, "R10.3", [fn, "summarisable"], "`%s` has a loop or too many paths to summarise" % fn, b.where(0)):
             continue
+        for sm_ in sums:
+            sm_.mem = {k_: _unwrap_wrapping(v_) for k_, v_ in sm_.mem.items()}
+            sm_.conds = [(_unwrap_wrapping(a_), p_) for a_, p_ in sm_.conds]
         shrink_here = shrink
         if fn in alt and any(sm_.mem.get(K("current_size")) == alt[fn][1] for sm_ in sums):
             cc, cs, mxc, mxs, (opname, opsize) = alt[fn]
@@ -462,6 +479,7 @@ def r10_3(ctx, prog, crate):
         sums = PathEval(b).run()
         if ctx.check(sums is not None and len(sums) == 1, "R10.3", ["tally_op", "straight-line"], "tally_op is not a single path", b.where(0)):
             sm = sums[0]
+            sm.mem = {k_: _unwrap_wrapping(v_) for k_, v_ in sm.mem.items()}
             gm = [c for c in sm.calls if c[0] == "alloc::AllocOpMap::get_mut"]
             ok = len(gm) == 1 and gm[0][1] == (("ptr", (1, ("tallies",))), ("arg", 2, ()))
             ctx.check(ok, "R10.3", ["tally_op", "slot-from-get_mut"], "the tally written is not self.tallies.get_mut(op): %s" % [(c[0], [show(a) for a in c[1]]) for c in gm], b.where(0))
